@@ -13,6 +13,13 @@ Inputs == {s \in SUBSET Slots : Cardinality(s) >= 1 /\ Cardinality(s) <= MaxVers
 
 Perms(S) == {f \in [1..Cardinality(S) -> S] : \A i, j \in 1..Cardinality(S) : i # j => f[i] # f[j]}
 
+\* constructive sampling (the sets Inputs and Perms are far too large to build beyond the exhaustive bound)
+RECURSIVE RandPerm(_)
+RandPerm(S) == IF S = {} THEN <<>> ELSE LET pick(x) == <<x>> \o RandPerm(S \ {x}) IN pick(RandomElement(S))
+RECURSIVE RandSet(_)
+RandSet(n) == IF n = 0 THEN {} ELSE {RandomElement(Slots)} \cup RandSet(n - 1)   \* (a comprehension would draw once)
+RandSlots(dummy) == RandSet(RandomElement(1..MaxVersions))   \* (a constant definition would be evaluated once)
+
 Build(slots, hashOf, tsOrder) ==
   {[split |-> tsOrder[i][1], path |-> tsOrder[i][2], hash |-> hashOf[tsOrder[i]], ts |-> i] : i \in DOMAIN tsOrder}
 
@@ -29,11 +36,11 @@ Emit(V, mode, order) ==
 Pick ==
   /\ stage = "pick"
   /\ IF Sample
-       THEN \E slots \in {RandomElement(Inputs)} :
+       THEN \E slots \in {RandSlots(stage)} :
               \E hashOf \in {[s \in slots |-> RandomElement(Hashes)]} :
-                \E tsOrder \in {RandomElement(Perms(slots))} :
+                \E tsOrder \in {RandPerm(slots)} :
                   \E mode \in {RandomElement(Modes)} :
-                    \E order \in {RandomElement(Perms({s[1] : s \in slots}))} :
+                    \E order \in {RandPerm({s[1] : s \in slots})} :
                       Emit(Build(slots, hashOf, tsOrder), mode, order)
        ELSE \E slots \in Inputs :
               \E hashOf \in [slots -> Hashes] :
@@ -53,7 +60,11 @@ Dump == stage = "done" =>
 \* ---- properties of the specification itself, checked on every generated case
 OrderIndependent ==
   stage = "done" =>
-     \A order \in Perms({v.split : v \in case.versions}) :
+     \* exhaustive over the arrival orders within the enumeration bound; for sampled (larger) cases the
+     \* chosen order, its reverse and two more random ones
+     \A order \in (IF Sample THEN {case.order, Reverse(case.order), RandPerm({v.split : v \in case.versions}),
+                                     RandPerm({v.split : v \in case.versions})}
+                            ELSE Perms({v.split : v \in case.versions})) :
         MergeFold(case.versions, case.mode, order) = case.expected
 MainSameInAllModes ==
   stage = "done" =>
